@@ -19,9 +19,9 @@ def run(tier):
         raise Broken("MC_Border produced only %d vectors" % len(r.vecs))
     summary, mism = vlib.replay_vectors(drv, ["border-replay", "-N", "8", "-S", "4", "-tier", tier], r.vecs)
     for m in mism[:10]:
-        v.violation("grid %s z=%s: %s vertex %s (inside=%s, ignore=%s): SnapPolygon -> %s (specified %s), InsertPoint -> %s (specified %s)"
+        v.violation("grid %s z=%s: %s vertex %s (inside=%s, ignore=%s): SnapPolygon -> %s, with coarser tile matrices requested as well -> %s (specified %s), InsertPoint -> %s (specified %s)"
                     % (m["grid"], m["z"], m["vec"].get("shape"), m["ring"][m["vec"]["k"]], m["vec"]["inside"], m["vec"]["ig"], m["snap_outcome"],
-                       m["vec"]["expect"], m["insert_outcome"], m["want_insert"]),
+                       m.get("snap_outcome_multi"), m["vec"]["expect"], m["insert_outcome"], m["want_insert"]),
                     {"kind": "border-vector", "vec": m["vec"], "grid": m["grid"], "z": m["z"], "ring": m["ring"]}, name="border")
     if summary["bad"] > 10:
         log("  (%d replays differ in total)" % summary["bad"])
